@@ -63,3 +63,42 @@ def check_C04(tier):
         rep.guard(any(t.endswith(':' + b) for t in rep.cover) or not c1, 'decision-table row %s never exercised' % b)
     rep.assumptions = ['theorems checked by TLC on the spec: AllOrNothing, OptionalNeverAdds, GetWithExact']
     return rep.finish()
+
+
+def _universes(env, conf):
+    """the generated universes, printed by TLC from spec/Universe.tla, for the runner"""
+    from common import tlc, parse_tla
+    r = tlc('PrintUniverses', 'PrintUniverses.cfg', env={'SPIL_CONF_JSON': conf}, workers=1, timeout=300)
+    out = {}
+    for v in r.printed():
+        if isinstance(v, list) and v and v[0] == 'UNIVERSE':
+            out[v[1]] = v[2]
+    if not out:
+        raise Machinery('no universes printed:\n' + r.out[-2000:])
+    p = os.path.join(env.dir, 'universes.json')
+    json.dump(out, open(p, 'w'))
+    return p
+
+
+def search_family(rep, env, conf, family, tier, what, keep=None, gt=True):
+    cfg = 'MC_Search_%s_%s%s.cfg' % (family, tier, '' if gt else '_nogt')
+    calls = K.spec_to_code(rep, env, conf, 'MC_Search', cfg, what,
+                           transform=(lambda cs: [c for c in cs if (keep is None or keep(c))]))
+    uni = _universes(env, conf) if family != 'unfold' else ''
+    K.code_to_spec(rep, env, conf, calls, what + ' executed on the implementation', tag=family,
+                   extra={'SPIL_UNIVERSES': uni})
+    return calls
+
+
+@reg
+def check_C07(tier):
+    rep = Report('C07', tier)
+    env = Env()
+    conf = extract_conf(env)
+    calls = search_family(rep, env, conf, 'unfold', tier, 'C07 family: first string of every type x <= MaxEdits syntactic edits')
+    rep.exhaustive = True
+    for t in ('unfold:error', 'unfold:nothing', 'unfold:one', 'unfold:many'):
+        rep.guard(t in rep.cover or not calls, '%s never exercised' % t)
+    rep.assumptions = ['theorems checked by TLC on the spec: UnfoldIsDenote (operational pipeline = declarative denotation), '
+                       'ErrorOnlyWhenDenoted, AllTypedAndMatching, NoDoubleStarLeft, LeafOnlyAfterExpand']
+    return rep.finish()
